@@ -365,7 +365,7 @@ func (w *world) endToEnd() {
 	sets := []settings{defaultSet, defaultSet, defaultSet, {Sel: "all"}, {Sel: "default", Disable: true}, {Sel: "list", List: []string{"html"}}, {Sel: "default", RespAE: "gzip"}}
 	for i := 0; i < n; i++ {
 		cs := &charsetTable[i%len(charsetTable)]
-		s := hk.Pick(rnd, []site{siteHeader, siteMeta, siteHTTPEquiv, siteNone, siteConflict, siteLateMeta, siteHdrUTF8})
+		s := hk.Pick(rnd, []site{siteHeader, siteMeta, siteHTTPEquiv, siteNone, siteConflict, siteLateMeta, siteHdrUTF8, siteTextFirst})
 		if cs.UTF16 {
 			s = hk.Pick(rnd, []site{siteHeader, siteBOM})
 		}
